@@ -454,6 +454,28 @@ static void taskSetProgram(const Params& P) {
     auto pc = P.cancelMode == 3 ? dispenso::ParentCascadeCancel::kOn : dispenso::ParentCascadeCancel::kOff;
     std::unique_ptr<dispenso::TaskSet> ts;
     std::unique_ptr<dispenso::ConcurrentTaskSet> cts;
+    std::thread canceller;
+    bool cancelStarted = false;
+    if (P.cancelMode == 3 && chance(1, 2)) {
+      // the parent may be cancelled before, while or after the child set is being constructed (the child
+      // has to register with the parent and pick up a cancellation that is already there)
+      cancelStarted = true;
+      int delay = range(0, 8);
+      static int ctorSoon;
+      ctorSoon = 0;
+      canceller = std::thread([delay, &parent]() {
+        for (int i = 0; i < 100000 && !ctorSoon; ++i)
+          sim_sleep_ns(200);
+        sim_work(delay);
+        g->cancelCalled = true;
+        g->cancelSource = "parent-cascade";
+        parent->cancel();
+        if (!g->cancelReturnStep)
+          g->cancelReturnStep = sim_step();
+      });
+      sim_work(range(0, 30));
+      ctorSoon = 1; // the child set is constructed next: the canceller aims at it
+    }
     if (ctx.kind == K_TS) {
       ts.reset(new dispenso::TaskSet(pool, pc, stealMult));
       ctx.ts = ts.get();
@@ -464,8 +486,6 @@ static void taskSetProgram(const Params& P) {
       ctx.cts = cts.get();
     }
     int rounds = range(1, 2);
-    std::thread canceller;
-    bool cancelStarted = false;
     for (int round = 0; round < rounds; ++round) {
       std::vector<Op> ops = planOps(6, 14, P.allowAsync);
       int extraProducers = ctx.kind == K_TS ? 0 : range(0, 2);
